@@ -195,7 +195,8 @@ func init() {
 		Rule: "profile `errors` (pcall/xpcall/error with every value type and level, nested, runtime faults at random points, continuing after caught errors) + corpus; oracle = Lean reference semantics"})
 	reg(progSpec{Prop: "C06", Profiles: []string{"coroutines"}, QuickN: 1200, ThoroughN: 30000, FaultPct: 10, Layouts: one,
 		Enums: EnumCoroutineShapes,
-		Rule: "profile `coroutines` (1–4 coroutines, nested resumes, payload counts independent of wanted counts, wrap generators, errors inside) + exhaustive payload/wanted grid + corpus; oracle = Lean reference semantics"})
+		Must:  func(bool) []*Program { return EnumCoroutineUpvalueShapes() },
+		Rule: "profile `coroutines` (1–4 coroutines, nested resumes, payload counts independent of wanted counts, wrap generators, errors inside) + exhaustive payload/wanted grid + 240 escaped-upvalue shapes (owner × yield path × ending × create/wrap: one shared variable across suspensions and after death) + corpus; oracle = Lean reference semantics"})
 	reg(progSpec{Prop: "C17", Profiles: []string{"errors", "core", "calls"}, QuickN: 900, ThoroughN: 20000, FaultPct: 70, Layouts: one,
 		Must: func(bool) []*Program { return EnumLineAfterShapes() },
 		Rule: "program-level error positions: profiles errors/core/calls with a deliberate fault in 70 % of the programs (run-time faults of every kind, error(msg) at levels 1 and 2, errors raised by library functions, caught and uncaught), every statement on one line, + exhaustive pairs (statement whose last instruction is deleted/rewritten by the compiler) × (statement whose first instruction faults) × placement with comment/blank lines between: the reported `chunk:line:` must be exactly the line the Lean reference semantics assigns"})
